@@ -536,6 +536,13 @@ def gen_ctor_grid():
                     for fp in (fps[0], fps[2], fps[3], NAN, fps[5]):
                         add("wtinylfu wcap=%d qcap=%d pcap=%d samples=%d fp=%s keys=u64 hasher=zero" % (w, q, p, samples, fp),
                             ["kh 1 1", "kh 2 ffffffffffffffff", "kh 3 0", "kh 4 100000000"] + smoke)
+    for via in ("withsizes", "builder", "buildernew", "frombuilder"):
+        for w in (0, 1, 2, 5):
+            for q in (0, 1, 3):
+                for p in (0, 1, 2):
+                    for samples in (0, 1, 7):
+                        add("wtsizes wcap=%d qcap=%d pcap=%d samples=%d via=%s" % (w, q, p, samples, via),
+                            ["cap", "len", "wcap", "mcap", "isempty", "wlen", "mlen"])
     for n in (0, 1, 3):
         for hint_zero in (0, 1):
             items = ",".join("%d:%d" % (i, i * 100000 + 1) for i in range(1, n + 1)) or "-"
